@@ -15,13 +15,15 @@ import cpu_props
 from common import Case, RecMem, device_classes, gen_case, run_driver, widths
 
 ID = 'C04'
-LEAN_MODULES = ['Py65.Props.C04']
+LEAN_MODULES = ['Py65.Props.C04', 'Py65.Props.C04b']
 NAMESPACES = ['Py65.Props.C04']
 LEVEL = 'proof'
-EXPECTED_THEOREMS = ['Py65.Props.C04.nmos_adc', 'Py65.Props.C04.nmos_sbc', 'Py65.Props.C04.cmos_acv']
+EXPECTED_THEOREMS = ['Py65.Props.C04.nmos_adc', 'Py65.Props.C04.nmos_sbc', 'Py65.Props.C04.cmos_acv',
+                     'Py65.Props.C04.decimal_step_6502', 'Py65.Props.C04.decimal_step_65c02',
+                     'Py65.Props.C04.adc_decimal_any_mode', 'Py65.Props.C04.sbc_decimal_any_mode']
 TRUSTED = ['Spec.Decimal (transcription of Bruce Clark\'s decimal-mode sequences)',
            'translator py2lean (validated every run)']
-ASSUMPTIONS = ['the lifting of the (A,M,C) kernel to every addressing mode / machine state is not a Lean theorem; it is checked here on the real devices (all modes)',
+ASSUMPTIONS = ['the lifting of the (A,M,C) kernel to every addressing mode and machine state IS a Lean theorem (C04b: decimal_step_6502 / decimal_step_65c02, frame included); the run on the real devices (all modes) is the failing-input search',
                'KNOWN FINDING: 65C02 N/Z in decimal mode follow the NMOS rule (existing tests pin it)']
 RULE = ('(A, M, C) triples: boundary classes + uniform (quick) / all 2^17 (thorough) x {ADC, SBC} x every '
         'addressing mode x {6502, 65C02}; distinct = distinct (device, opcode, A, M, C)')
